@@ -136,6 +136,14 @@ def known_class(f):
     if f["kind"] in ("missing", "extra", "duplicate", "membership", "values", "file-content", "order-dependent") \
             and CONTENT_KEYED.search(f["line"]):
         return "C09-unnamed-below-splittable"
+    # multi-valued BSW parameters (several siblings with one DEFINITION-REF) whose sibling lists are not aligned in the
+    # two files (the oracle computes the tag from the files alone): later values pair with the FIRST value again
+    if f["kind"] in ("missing", "extra", "duplicate", "membership", "values", "file-content", "order-dependent", "merge-rejected") \
+            and f["line"].endswith(" tag=multikey-misaligned"):
+        return "C09-multivalued-defref-misaligned"
+    # two files give one (non-splittable) parameter value different character data: the second file is accepted
+    if f["kind"] == "not-rejected" and re.search(r"\(conflict-multi-(swapped|text)\) was accepted$", f["line"]):
+        return "C09-character-data-conflict-accepted"
     # shared elements that carry different attributes in different files: the attributes of the file loaded first win
     if f["kind"] in ("attrs", "file-attrs", "order-attrs"):
         return "C09-attributes-first-loaded-wins"
